@@ -43,6 +43,8 @@ def scratch(name):
 
 
 def cleanup(d):
+    if os.environ.get("VERIF_KEEP"):
+        return
     shutil.rmtree(d, ignore_errors=True)
 
 
